@@ -48,6 +48,11 @@ func (s *SortedCache) Peek() (min []byte, ok bool) {
 	return s.tree.Min()
 }
 
+// PeekLast returns the largest key without removing it.
+func (s *SortedCache) PeekLast() (max []byte, ok bool) {
+	return s.tree.Max()
+}
+
 func (s *SortedCache) Delete(key []byte) {
 	deleted, ok := s.tree.Delete(key)
 	if ok {
